@@ -198,7 +198,8 @@ func (c *choiceCasesResolver) getBestCaseName() string {
 	var bestCaseName string
 	bestCasePrio := int32(math.MaxInt32)
 	for caseName, cas := range c.cases {
-		if cas.GetLowestPriorityValue() <= bestCasePrio {
+		// a case without any populated element (math.MaxInt32) can never be the best case
+		if cas.GetLowestPriorityValue() < bestCasePrio {
 			bestCaseName = caseName
 			bestCasePrio = cas.GetLowestPriorityValue()
 		}
